@@ -899,6 +899,23 @@ package query
 
 // C17 / C07: the sort keys an analytic function computes for its own ORDER BY do not outlive it: the next analytic function
 // (RANK without ORDER BY, ...) and the query's own ORDER BY / LIMIT WITH TIES start without keys
+// C19 / C17: the values of one window frame: the frame is cut to the partition before anything is sized or walked, so a
+// frame whose start lies after its end (ROWS BETWEEN 1 FOLLOWING AND 1 PRECEDING) or whose bounds lie far outside the
+// partition neither asks make() for a negative / absurd capacity (Fatal Error) nor walks billions of empty positions
+//@ func windowValues
+//@   property C19 C17
+//@   safety
+//@   abstract *
+//@   requires scope != nil && scope.Tx != nil && valueCache != nil && len(expr.Args) >= 1 && len(scope.Records) >= 1 && scope.Records[0].view != nil
+//@   loop 1 invariant 0 <= low && high <= len(partition) - 1 && low <= i && anScope != nil && len(anScope.Records) >= 1
+//@   terminates
+//@   loop 1 decreases high - i + 1
+//@   modifies *
+//@ func (*ReferenceScope).CreateScopeForAnalytics
+//@   trusted assumed: a scope over the same view positioned before its first row (shape only)
+//@   requires len(rs.Records) >= 1
+//@   ensures result != nil && fresh(result) && fresh(result.Records) && len(result.Records) == len(rs.Records)
+//@   modifies fresh
 //@ func NewFunctionNotExistError
 //@   trusted assumed: error constructor
 //@   ensures result != nil
